@@ -570,7 +570,8 @@ Lemma seq_seqL a b : seq a b -> seqL a b.
 Proof.
   intros [A B C]. constructor; auto. unfold fclean in A.
   rewrite <- (map_ext _ _ erase_true_false (forest a)), <- (map_ext _ _ erase_true_false (forest b)).
-  rewrite <- !map_map, A. reflexivity.
+  rewrite <- (map_map (erase false) (erase true) (forest a)), <- (map_map (erase false) (erase true) (forest b)), A.
+  reflexivity.
 Qed.
 
 Theorem seqL_abs a b : seqL a b -> abs a = abs b.
